@@ -187,6 +187,39 @@ fn pool_tests(t: &mut T) {
                 .collect::<Vec<_>>()
         };
         t.expect("pool/monitor_returned_early", &early, Some("returned_early"));
+        // Concurrent callers: two broadcasts in progress on two stacks.
+        let top2 = 0x7100_0000usize;
+        let two = |m: &pool::FrameLiveness, a_returns: bool| {
+            m.on_event(&mk(0, Ev::Spawn { child: 1 }));
+            m.on_event(&mk(0, Ev::Spawn { child: 2 }));
+            m.on_event(&mk(1, Ev::Spawn { child: 3 }));
+            m.on_event(&mk(1, Ev::User(UserEv::BroadcastBegin { j: 0, n: 1 })));
+            m.set_frame(0, top);
+            m.on_event(&mk(2, Ev::User(UserEv::BroadcastBegin { j: 1, n: 1 })));
+            m.set_frame(1, top2);
+            m.on_event(&mk(3, Ev::User(UserEv::TaskBegin { j: 0, i: 1 })));
+            m.on_event(&mk(3, Ev::User(UserEv::TaskEnd { j: 0, i: 1 })));
+            m.on_event(&mk(1, Ev::User(UserEv::TaskBegin { j: 0, i: 0 })));
+            m.on_event(&mk(1, Ev::User(UserEv::TaskEnd { j: 0, i: 0 })));
+            if a_returns {
+                m.on_event(&mk(1, Ev::User(UserEv::BroadcastReturn { j: 0 })));
+            }
+        };
+        t.expect("pool/monitor_lanes_stale_touch_while_other_caller_busy", &verdict(3, top - 200, &|m| two(m, true)), Some("touch_after_release"));
+        t.expect("pool/monitor_lanes_touch_of_open_broadcast_on_other_stack", &verdict(3, top2 - 200, &|m| two(m, true)), None);
+        t.expect("pool/monitor_lanes_touch_before_own_return", &verdict(3, top - 200, &|m| two(m, false)), None);
+        let early2 = {
+            let m = pool::FrameLiveness::default();
+            two(&m, true);
+            // The second caller comes back although its worker call never ran.
+            m.on_event(&mk(2, Ev::User(UserEv::TaskBegin { j: 1, i: 0 })));
+            m.on_event(&mk(2, Ev::User(UserEv::TaskEnd { j: 1, i: 0 })));
+            m.on_event(&mk(2, Ev::User(UserEv::BroadcastReturn { j: 1 })))
+                .map(|msg| crate::batch::invariant_violation(&msg))
+                .into_iter()
+                .collect::<Vec<_>>()
+        };
+        t.expect("pool/monitor_lanes_returned_early_judged_per_broadcast", &early2, Some("returned_early"));
     }
     t.expect("pool/index_out_of_range", &tamper(&|r, _| {
         let p = pos(r, is_begin(0, 2));
